@@ -71,6 +71,6 @@ def run_kani(harnesses=None, features=(), timeout=900):
             q = subprocess.run(['timeout', '600', 'cargo', 'kani', 'playback', '-Z', 'concrete-playback'] + (
                 ['--features', ','.join(features)] if features else []), cwd=dst, env=env, capture_output=True, text=True)
             pout = q.stdout + q.stderr
-            h['playback_reproduced'] = ('panicked' in pout) or ('FAILED' in pout)
+            h['playback_reproduced'] = ('panicked at' in pout or 'test result: FAILED' in pout) and 'could not compile' not in pout
             h['playback_tail'] = pout[-800:]
     return res
